@@ -470,4 +470,157 @@ theorem expired_token_rejected (hash : Nat → Nat) (w : World) (ct : Nat) :
       · exact ⟨userinfoExpiredErr, by simp [hk, userinfoExpired, h]⟩
       · exact ⟨userinfoVerifyErr, by simp [hk]⟩
 
+/-! ## 5. Reuse of a rotated refresh token revokes the session -/
+
+/-- The OAuth2 session `sid` of account `a` is on record and revoked. -/
+def O2Revoked (w : World) (a sid : Nat) : Prop := ∃ e, w.acct a = some e ∧ RevokedIn e.o2s sid
+
+/-- The login session `p` of account `a` is on record and revoked. -/
+def LoginRevoked (w : World) (a p : Nat) : Prop := ∃ e, w.acct a = some e ∧ UatRevoked e p
+
+/-- **Second sentence, second half, as coded.** A refresh token that is otherwise honoured
+(unexpired, account and sessions valid) but older, in whole seconds, than the last re-issue of its
+session is refused with `invalid_grant`, the session is revoked by that very request, and the
+caller commits the revocation. -/
+theorem reuse_revokes_session (w : World) (c : TClient) (rt : RefreshTok) (req : Option (List Nat))
+    (ct : Nat) (e : Entry) (s : Sess)
+    (hexp : asSecs ct < rt.exp) (ha : w.acct rt.acct = some e)
+    (hv : acctValid e rt.sid rt.parent rt.iat ct = true)
+    (hs : lookup e.o2s rt.sid = some s) (hrot : rt.iat < asSecs s.issued) :
+    ∃ w', exchangeRefresh w c (.refresh c.base.uuid rt) req ct = (w', .error .invalidGrant) ∧
+      O2Revoked w' rt.acct rt.sid ∧ commitOnErr .invalidGrant = true := by
+  obtain ⟨w', hw'⟩ := update_isSome (w := w) id (.revokeO2 rt.sid) ct ha
+  have hx : refreshExpired rt.exp (asSecs ct) = false := by simp [refreshExpired]; exact hexp
+  have hr : refreshReuse rt.iat (asSecs s.issued) = true := by simp [refreshReuse]; exact hrot
+  refine ⟨w', ?_, ?_, rfl⟩
+  · unfold exchangeRefresh World.write
+    simp [hx, ha, hv, hs, hr, hw', refreshReuseErr]
+  · obtain ⟨e0, he0, he1, _⟩ := write_spec (w := w) (w' := w') hw'
+    rw [ha] at he0; cases he0
+    refine ⟨_, he1, ?_⟩
+    show RevokedIn (plugin ct w.cid (applyMod w.cid e (.revokeO2 rt.sid))).o2s rt.sid
+    apply revokedIn_plugin
+    refine ⟨Kanidm.SessionPlugin.revoke w.cid s, ?_, revoke_revoked w.cid s⟩
+    simp only [applyMod]
+    rw [lookup_revokeKey, hs]; simp
+
+/-- A successful refresh that extends the session (its new expiry is later than the recorded one:
+always so when time has advanced under an unchanged refresh lifetime) stamps the session with the
+instant of the refresh. -/
+theorem rotation_stamps_session {w w' : World} {c : TClient} {rt : RefreshTok} {req : Option (List Nat)}
+    {ct : Nat} {r : Resp} {e : Entry} {s : Sess}
+    (h : exchangeRefresh w c (.refresh c.base.uuid rt) req ct = (w', .ok r))
+    (ha : w.acct rt.acct = some e) (hs : lookup e.o2s rt.sid = some s)
+    (hext : ∀ x, s.state = .expiresAt x → x < sessionExpiry ct c.refreshExpiry) :
+    ∃ e' s', w'.acct rt.acct = some e' ∧ lookup e'.o2s rt.sid = some s' ∧ s'.issued = ct := by
+  obtain ⟨rt', e0, s0, ht⟩ := (exchange_refresh_ok_iff w c _ req ct).mp ⟨w', r, h⟩
+  have hrt : rt' = rt := by have := ht.isRefresh; injection this with _ h2; exact h2.symm
+  subst hrt
+  have he0 : e0 = e := by have := ht.account; rw [ha] at this; injection this with h; exact h.symm
+  subst he0
+  have hs0 : s0 = s := by have := ht.session; rw [hs] at this; injection this with h; exact h.symm
+  subst hs0
+  -- the session is live (it passed the validity test), so the re-issue replaces it
+  have hlive : LiveAt s0 ct := by
+    obtain ⟨_, ⟨o, ho, hlo, _⟩ | ⟨hn, _⟩⟩ := (acctValid_true_iff e0 rt'.sid rt'.parent rt'.iat ct).mp ht.valid
+    · rw [hs] at ho; cases ho; exact hlo
+    · rw [hs] at hn; cases hn
+  have hwrite : ∃ scopes, w.write rt'.acct (.grant rt'.sid rt'.parent (some (sessionExpiry ct c.refreshExpiry)) ct) ct = some w' ∧ scopes = r.scopes := by
+    have hx : refreshExpired rt'.exp (asSecs ct) = false := by simp [refreshExpired]; exact ht.unexpired
+    have hr : refreshReuse rt'.iat (asSecs s0.issued) = false := by
+      simp [refreshReuse]; exact Nat.le_of_not_lt ht.notRotated
+    unfold exchangeRefresh at h
+    simp only [ne_eq, not_true_eq_false, ↓reduceIte, hx, ht.account, ht.valid, ht.session, hr,
+      Bool.false_eq_true, Bool.not_true] at h
+    cases req with
+    | none => exact ⟨_, (generate_result h).2.2.2.2.2.2, rfl⟩
+    | some rs =>
+      have hsub : refreshScopesOk (rs.all fun x => rt'.scopes.contains x) = true := by
+        simpa [refreshScopesOk] using ht.narrow rs rfl
+      simp only [hsub, ↓reduceIte] at h
+      exact ⟨_, (generate_result h).2.2.2.2.2.2, rfl⟩
+  obtain ⟨_, hw, _⟩ := hwrite
+  obtain ⟨e1, he1, he2, _⟩ := write_spec hw
+  rw [ha] at he1; cases he1
+  have hins : lookup (applyMod w.cid e0 (.grant rt'.sid rt'.parent (some (sessionExpiry ct c.refreshExpiry)) ct)).o2s rt'.sid
+      = some ⟨.expiresAt (sessionExpiry ct c.refreshExpiry), ct, encParent rt'.parent⟩ := by
+    simp only [applyMod, stateOf]
+    rw [lookup_insertO2, hs]
+    have : Kanidm.Gen.SessionPlugin.o2InsertReplaces
+        (SState.cmp (.expiresAt (sessionExpiry ct c.refreshExpiry)) s0.state) = true := by
+      cases hst : s0.state with
+      | revokedAt cc => exact absurd ⟨cc, hst⟩ hlive.1
+      | neverExpires => simp [SState.cmp, Kanidm.Gen.SessionPlugin.o2InsertReplaces]
+      | expiresAt x =>
+        have hlt := hext x hst
+        simp only [SState.cmp, Kanidm.Gen.SessionPlugin.o2InsertReplaces, beq_iff_eq]
+        exact Nat.compare_eq_gt.mpr hlt
+    simp [this]
+  obtain ⟨s', hs', hiss⟩ := plugin_o2s_issued _ ct w.cid rt'.sid _ hins
+  exact ⟨_, s', he2, hs', hiss⟩
+
+/-- The full reading — *every* second presentation of a refresh token that was already redeemed
+is refused — … -/
+def reuse_revokes_full : Prop :=
+  ∀ (w w1 w2 : World) (c : TClient) (rt : RefreshTok) (ct1 ct2 : Nat) (r1 : Resp) (x : Except OErr Resp),
+    exchangeRefresh w c (.refresh c.base.uuid rt) none ct1 = (w1, .ok r1) → ct1 ≤ ct2 →
+    exchangeRefresh w1 c (.refresh c.base.uuid rt) none ct2 = (w2, x) → ∃ err, x = .error err
+
+def isOkB {α : Type} : Except OErr α → Bool
+  | .ok _ => true
+  | .error _ => false
+
+/-- The witness world of finding D43: one basic client (uuid 400), one person (uuid 200) with a
+never-expiring login session 300 and an OAuth2 session 1000 issued at 5.1 s. -/
+def witnessClient : TClient := ⟨⟨400, .basic true false, [], [], false, [], []⟩, 7, 57600, [], []⟩
+def witnessWorld : World :=
+  { reg := [("rs".toList, witnessClient)],
+    accts := [(200, { Entry.fresh (some 500) with
+      uats := some [(300, ⟨.neverExpires, 0, 500⟩)],
+      o2s := [(1000, ⟨.expiresAt (5100000000 + 57600 * 1000000000), 5100000000, 301⟩)] })],
+    nextSid := 1001, cid := 1 }
+/-- The refresh token issued with that session: `iat` = second 5. -/
+def witnessToken : RefreshTok := ⟨[0], some 300, 1000, 5 + 57600, 200, 5, none⟩
+
+/-- … is false of the code (finding D43 / class `C39-F1:refresh-replay-same-second`): a rotation
+inside the second the token was issued in (5.2 s) is invisible to the whole-second comparison, and
+the rotated token is honoured again at 9 s. -/
+theorem reuse_revokes_full_false : ¬ reuse_revokes_full := by
+  intro h
+  have h1 : isOkB (exchangeRefresh witnessWorld witnessClient (.refresh 400 witnessToken) none 5200000000).2 = true := by
+    decide +kernel
+  have h2 : isOkB (exchangeRefresh (exchangeRefresh witnessWorld witnessClient (.refresh 400 witnessToken) none 5200000000).1
+      witnessClient (.refresh 400 witnessToken) none 9000000000).2 = true := by
+    decide +kernel
+  cases hr1 : exchangeRefresh witnessWorld witnessClient (.refresh 400 witnessToken) none 5200000000 with
+  | mk w1 x1 =>
+    rw [hr1] at h1 h2
+    cases x1 with
+    | error _ => simp [isOkB] at h1
+    | ok r1 =>
+      cases hr2 : exchangeRefresh w1 witnessClient (.refresh 400 witnessToken) none 9000000000 with
+      | mk w2 x2 =>
+        simp only at h2
+        rw [hr2] at h2
+        obtain ⟨err, herr⟩ := h witnessWorld w1 w2 witnessClient witnessToken 5200000000 9000000000 r1 x2 hr1 (by decide) hr2
+        rw [herr] at h2
+        simp [isOkB] at h2
+
+/-- The partial statement that *is* true: once the rotation happened in a later second than the
+token's `iat` and extended the session, presenting the rotated token again — right after, at any
+later instant at which it would otherwise still be honoured — revokes the session. -/
+theorem reuse_after_rotation_revokes {w w1 : World} {c : TClient} {rt : RefreshTok} {req1 req2 : Option (List Nat)}
+    {ct1 ct2 : Nat} {r1 : Resp} {e : Entry} {s : Sess}
+    (hrot : exchangeRefresh w c (.refresh c.base.uuid rt) req1 ct1 = (w1, .ok r1))
+    (ha : w.acct rt.acct = some e) (hs : lookup e.o2s rt.sid = some s)
+    (hext : ∀ x, s.state = .expiresAt x → x < sessionExpiry ct1 c.refreshExpiry)
+    (hlater : rt.iat < asSecs ct1)
+    (hexp : asSecs ct2 < rt.exp)
+    (hvalid : ∀ e1, w1.acct rt.acct = some e1 → acctValid e1 rt.sid rt.parent rt.iat ct2 = true) :
+    ∃ w2, exchangeRefresh w1 c (.refresh c.base.uuid rt) req2 ct2 = (w2, .error .invalidGrant) ∧
+      O2Revoked w2 rt.acct rt.sid := by
+  obtain ⟨e1, s1, he1, hs1, hiss⟩ := rotation_stamps_session hrot ha hs hext
+  obtain ⟨w2, h2, hrev, _⟩ := reuse_revokes_session w1 c rt req2 ct2 e1 s1 hexp he1 (hvalid e1 he1) hs1 (by rw [hiss]; exact hlater)
+  exact ⟨w2, h2, hrev⟩
+
 end Kanidm.OAuth2.Token
